@@ -9,6 +9,7 @@ package main
 
 import (
 	"fmt"
+	"os"
 	"go/token"
 	"go/types"
 	"runtime"
@@ -41,6 +42,7 @@ type interpreter struct {
 	timeCounter        int64
 	trace              bool
 	lastPanicStack     []string
+	curFrame           *frame
 }
 
 type deferred struct {
@@ -97,6 +99,7 @@ func mustDeref(t types.Type) types.Type {
 
 // rtPanic raises a target-level run-time error.
 func (i *interpreter) rtPanic(msg string) {
+	i.lastPanicStack = i.stackOf(i.curFrame)
 	panic(targetPanic{iface{i.runtimeErrorString, "runtime error: " + msg}})
 }
 
@@ -150,9 +153,11 @@ func (i *interpreter) globalAddr(g *ssa.Global) *value {
 	return &cell
 }
 
+var traceInit = os.Getenv("GOSYM_TRACE_INIT") != ""
+
 func (i *interpreter) runPkgInit(pkg *ssa.Package, init *ssa.Function) {
-	if i.trace {
-		fmt.Printf("## init %s\n", pkg.Pkg.Path())
+	if i.trace || traceInit {
+		fmt.Fprintf(os.Stderr, "## init %s (touched from %s)\n", pkg.Pkg.Path(), strings.Join(i.stackOf(i.curFrame), " <- "))
 	}
 	saved := i.depth
 	defer func() { i.depth = saved }()
@@ -514,9 +519,12 @@ func callSSA(i *interpreter, caller *frame, callpos token.Pos, fn *ssa.Function,
 			*i.globalAddr(g) = false
 		}
 	}
+	prevFrame := i.curFrame
+	i.curFrame = fr
 	for fr.block != nil {
 		runFrame(fr)
 	}
+	i.curFrame = prevFrame
 	i.depth--
 	return fr.result
 }
@@ -539,13 +547,19 @@ func runFrame(fr *frame) {
 			fr.panicking = true
 			fr.panic = r
 			fr.i.depth = frameDepth(fr)
+			fr.i.curFrame = fr
 			fr.runDefers()
 			fr.block = fr.fn.Recover
 			if fr.block == nil {
 				// recovered in a function without named results: zero result
 				fr.result = zeroResult(fr.fn)
 			}
-		case pathEnd, engineError:
+		case pathEnd:
+			panic(r)
+		case engineError:
+			if !strings.Contains(r.msg, "\n  target stack:") {
+				r.msg += "\n  target stack: " + strings.Join(fr.i.stackOf(fr), " <- ")
+			}
 			panic(r)
 		case runtime.Error:
 			if strings.Contains(r.Error(), "integer divide by zero") {
@@ -559,9 +573,9 @@ func runFrame(fr *frame) {
 				}
 				return
 			}
-			panic(engineError{msg: fmt.Sprintf("host runtime error in %s: %v", fr.fn, r), stack: string(debug.Stack())})
+			panic(engineError{msg: fmt.Sprintf("host runtime error in %s: %v\n  target stack: %s", fr.fn, r, strings.Join(fr.i.stackOf(fr), " <- ")), stack: string(debug.Stack())})
 		default:
-			panic(engineError{msg: fmt.Sprintf("engine panic in %s: %v", fr.fn, r), stack: string(debug.Stack())})
+			panic(engineError{msg: fmt.Sprintf("engine panic in %s: %v\n  target stack: %s", fr.fn, r, strings.Join(fr.i.stackOf(fr), " <- ")), stack: string(debug.Stack())})
 		}
 	}()
 
